@@ -14,6 +14,7 @@
 //@ harness: name=c19_handle_remote_call props=C19 cap=900 cost=30 sym="target peer chosen from {other, third}; next_peer_pks initially empty or holding one entry" bound="-"
 //@ harness: name=c06_call_request_ids_increase props=C06 cap=300 cost=10 sym="last_call_request_id: any u32 < u32::MAX - 1" bound="two consecutive ids"
 //@ harness: name=c01_executed_state_with_unresolved_args props=C01 panicfree=1 cap=900 cost=60 sym="Executed(Scalar|Stream|Unused) chosen symbolically; any generation" bound="argument hash = None"
+//@ harness: name=c06_foreign_request_never_takes_local_result props=C06,C05 cap=1800 cost=300 sym="request of ANOTHER peer carrying call id 5; call addressed to me / other; a host result is waiting under key 5" bound="one entry in call_results"
 //@ harness: name=c05_leaf_vacuity props=C05 expect=fail cap=1800 cost=200 sym="as decision table" bound="same"
 
 use super::*;
@@ -115,6 +116,41 @@ fn c05_pending_request_decision_table() {
 #[kani::stub(std::thread::Thread::unpark, thread_unpark_stub)]
 fn c05_leaf_vacuity() {
     decision_body(true);
+}
+
+/// A host result stored under a call id belongs to the call THIS peer requested under that id.  A request
+/// state written by another peer (ids are per peer, so they collide) must never consume it.
+#[kani::proof]
+#[kani::unwind(12)]
+#[kani::stub(std::hash::RandomState::new, random_state_stub)]
+#[kani::stub(alloc::fmt::format, fmt_stub)]
+#[kani::stub(std::thread::current::current, thread_current_stub)]
+#[kani::stub(std::thread::park, thread_park_stub)]
+#[kani::stub(std::thread::Thread::unpark, thread_unpark_stub)]
+fn c06_foreign_request_never_takes_local_result() {
+    let mut u = partial_ctx("me", 7);
+    let ctx = unsafe { &mut *u.as_mut_ptr() };
+    ctx.call_results.insert(
+        "5".to_string(),
+        air_interpreter_interface::CallServiceResult {
+            ret_code: 0,
+            result: String::new(),
+        },
+    );
+    let mut trace = TraceHandler::default();
+    let target_me: bool = kani::any();
+    let state = CallResult::sent_peer_id_with_call_id(Rc::new("other".to_string()), 5);
+    let met = MetCallResult::new(state, 0.into(), ValueSource::CurrentData);
+    let tetraplet = tetraplet_for(if target_me { "me" } else { "other" });
+    let hash: Rc<str> = "h".into();
+    let r = handle_prev_state(met, &tetraplet, Some(&hash), &CallOutputValue::None, ctx, &mut trace);
+    kani::assert(ctx.call_results.len() == 1, "C06: a result supplied under an id is applied to the call that requested it and no other");
+    kani::assert(matches!(&r, Ok(d) if d.should_execute == target_me && d.prev_state.is_some()), "C05: a foreign request is only (re)executed where addressed");
+    kani::assert(trace.as_result_trace().len() == 0, "C05: no result recorded at a foreign request");
+    kani::cover!(target_me, "addressed to me");
+    kani::cover!(!target_me, "addressed elsewhere");
+    std::mem::forget((r, tetraplet, hash, trace));
+    std::mem::forget(u);
 }
 
 #[kani::proof]
